@@ -25,7 +25,7 @@ CHECK = {
            'print_to(s,P,"%s",payload)+append / print_to(s,0,...) / resize(N) shrink and grow / rem(payload) from prefix+payload+suffix / rem absent / copy '
            'on a fresh String, each with the same libc oracle (non-trivial there: N or P+N within one of a power of two >= 64)'),
   'bounds': {
-    'quick': 'content over {a,b} up to length 5 (gcc) and up to length 4 (ASan+UBSan; 3 with aliased operands); operands = all 7 strings of length <= 2; resize(n) for n <= len+2; print_to at every pos <= len, plus (pct=1) print_to with a literal "%%" alone / leading / trailing / doubled / between two conversions at the end and at 0 (content then over {a,b,%}); light mode {a,b} up to 4 (gcc) and 3 (ASan); ladder (hash asked right before and right after every operation): payload lengths 0..300 x prefix lengths {0,1,5,127,128} x 13 operations (gcc and ASan+UBSan)',
+    'quick': 'content over {a,b} up to length 5 (gcc) and up to length 4 (ASan+UBSan; 3 with aliased operands); operands = all 7 strings of length <= 2; resize(n) for n <= len+2; print_to at every pos <= len, plus (pct=1) print_to with a literal "%%" alone / leading / trailing / doubled / between two conversions at the end and at 0, and (pct=2, gcc) %$ / show_to of the String "%" into the target (content then over {a,b,%,"}); light mode {a,b} up to 4 (gcc) and 3 (ASan); ladder (hash asked right before and right after every operation): payload lengths 0..300 x prefix lengths {0,1,5,127,128} x 13 operations, plus 18 String arguments (15 containing %) shown by %$ / show_to / "<%$>" / "%$%$" at every position of an 8-character and of the empty target (gcc and ASan+UBSan)',
     'thorough': 'content over {a,b,c} up to length 6 with operands of length <= 2 (13), {a,b,c} up to 5 and {a,b} up to 8 with operands of length <= 3; ASan+UBSan: {a,b} up to 6 and {a,b,c} up to 4; light mode {a,b,c} up to 4, {a,b} up to 6, ASan {a,b} up to 4; ladder: payload lengths 0..1100 (crossing 64, 128, 256, 512, 1024 and neighbours) x the same prefixes and operations',
   },
   'assumptions': [
@@ -38,8 +38,9 @@ CHECK = {
   ],
   'instances': {
     'quick': [
-      T('ab5', 'base', 'alpha=2', 'maxlen=5', 'pct=1'),
-      T('ab4-asan', 'asan', 'alpha=2', 'maxlen=4', 'pct=1'),
+      T('ab5', 'base', 'alpha=2', 'maxlen=5', 'pct=2'),
+      T('ab4-asan', 'asan', 'alpha=2', 'maxlen=4'),
+      T('ab3-pct-asan', 'asan', 'alpha=2', 'maxlen=3', 'pct=2'),
       # the argument IS the target: assign(s,s), concat(s,s), rem(s,s) added to the alphabet
       T('ab3-alias-asan', 'asan', 'alpha=2', 'maxlen=3', 'alias=1'),
       T('ab4-alias', 'base', 'alpha=2', 'maxlen=4', 'alias=1'),
@@ -58,7 +59,7 @@ CHECK = {
       T('abc4-asan', 'asan', 'alpha=3', 'maxlen=4'),
       T('ab5-alias-asan', 'asan', 'alpha=2', 'maxlen=5', 'alias=1'),
       T('abc5-alias', 'base', 'alpha=3', 'maxlen=5', 'alias=1'),
-      T('abc5-pct', 'base', 'alpha=3', 'maxlen=5', 'pct=1'),
+      T('abc5-pct', 'base', 'alpha=3', 'maxlen=5', 'pct=2'),
       T('ab5-pct-asan', 'asan', 'alpha=2', 'maxlen=5', 'pct=1'),
       T('abc4-hashop', 'base', 'alpha=3', 'maxlen=4', 'hashop=1'),
       T('ab6-hashop', 'base', 'alpha=2', 'maxlen=6', 'hashop=1'),
